@@ -1,4 +1,5 @@
 import MetapypeModel.Model.Prune
+import MetapypeModel.Lemmas.TreeIds
 /-
   Accounting for `prune` (C15): which subtrees leave the tree, in the state they have when they leave it, and why.
   Every node of the original is either kept or lies in exactly one removed subtree (multiset equality of ids, stated with
@@ -6,19 +7,11 @@ import MetapypeModel.Model.Prune
 -/
 namespace Metapype
 
-def Tree.ids (t : Tree) : List String := (Tree.preorder t).map Tree.id
-def Tree.idsL (cs : List Tree) : List String := (Tree.preorderL cs).map Tree.id
 def keptIds : Option Tree → List String
   | some t => t.ids
   | none => []
 def removedIds (l : List (Tree × Reason)) : List String := l.flatMap (fun x => x.1.ids)
 
-@[simp] theorem ids_mk (i n : String) (c tl p : Option String) (a e ns : Dict) (cs : List Tree) :
-    (Tree.mk i n c tl p a e ns cs).ids = i :: Tree.idsL cs := by
-  simp [Tree.ids, Tree.idsL, Tree.preorder, Tree.id]
-@[simp] theorem idsL_nil : Tree.idsL [] = [] := by simp [Tree.idsL, Tree.preorderL]
-@[simp] theorem idsL_cons (c : Tree) (cs : List Tree) : Tree.idsL (c :: cs) = c.ids ++ Tree.idsL cs := by
-  simp [Tree.idsL, Tree.ids, Tree.preorderL]
 @[simp] theorem removedIds_nil : removedIds [] = [] := rfl
 @[simp] theorem removedIds_cons (x : Tree × Reason) (l : List (Tree × Reason)) : removedIds (x :: l) = x.1.ids ++ removedIds l := by
   simp [removedIds]
